@@ -21,9 +21,13 @@ RULE = ("kind ns (modelled): a seeded random parser of 1-3 typed arguments under
         "under Optional/List/Dict/Tuple/Set/Union; and parsers with 2-4 options whose names are prefix-related "
         "(model/model_ema/mod, opt/optim, k/k2/k2b, ...), most of them subclass-typed (two class families with "
         "**kwargs-forwarding subclasses) with lazy_instance defaults, the command line / object / string switching classes and "
-        "setting init_args in every spelling (--name=Cls, --name.class_path, --name.p, --name.init_args.p, JSON spec). Every x "
-        "case also runs the dump leg: dump(cfg), parse_string of it compared with cfg, and the dump of that compared byte for "
-        "byte. non-trivial = the first parse is accepted and some value changed representation or "
+        "setting init_args in every spelling (--name=Cls, --name.class_path, --name.p, --name.init_args.p, JSON spec). Options of mapping / list / "
+        "dataclass type declared with enable_path=True and given as a PATH to a yaml/json/line file written for the case (the value "
+        "keeps its '__path__' entry), from argv, object, string and a --cfg file (channel cfgfile, also for the multi-option "
+        "parsers). 30 % of the multi-option cases are preceded, in the same process, by a FAILED parse_args on another parser of the "
+        "same shape (subclass options incl. their None-default init_args given, then a --cfg that is missing / broken / names an "
+        "unknown key). Every x case also runs the dump leg: dump(cfg), parse_string of it compared with cfg modulo '__path__' "
+        "entries, and the dump of that compared byte for byte. non-trivial = the first parse is accepted and some value changed representation or "
         "is a container; distinct = distinct (parser, input)")
 TRUSTED = [
     "Coq 8.16.1 kernel + vm_compute",
@@ -43,6 +47,10 @@ ASSUMPTIONS = [
     "declared defaults of list-append arguments conform to their type (parse_args never checks an overridden default)",
     "dict objects carry no dotted keys and no scalar for a group key; parsers have no environment, config-file argument, "
     "subcommand or link (those are C04/C06/C15/C17)",
+    "metadata: the object re-parse must hand back the '__path__' entries it was given (full equality); the dump leg compares "
+    "modulo '__path__' entries, which text cannot carry (DESIGN A.6)",
+    "history: C10 quantifies over parsers and inputs, not over call histories (that is C09); the one history exercised is a failed "
+    "--cfg load earlier in the process, because it is cheap and the dump leg is where such a leak shows",
     "kind x: equality of opaque values (paths, registered-type instances) is equality of (type name, repr / relative -> absolute "
     "path); a Decimal is compared by value (Decimal('1.50') == Decimal('1.5')), as Python does",
 ]
@@ -912,6 +920,15 @@ def nontrivial_key(case, obs):
                       sort_keys=True)
 
 
+def no_meta(v):
+    """tagged value / outcome without the "__path__" entries of mappings (what text can carry)"""
+    if isinstance(v, list) and v and v[0] == "dict":
+        return ["dict", [[a, no_meta(b)] for a, b in v[1] if a != ["str", "__path__"]]]
+    if isinstance(v, list):
+        return [no_meta(x) for x in v]
+    return v
+
+
 def category(case, obs):
     shape = lambda t: t[0] if t[0] not in ("union",) else "union%d" % len(t[1])  # noqa: E731
     kinds = "+".join(sorted({shape(d["ty"]) for d in case["decls"]}))
@@ -921,7 +938,8 @@ def category(case, obs):
         what = "accepted/fixed-point" if same else "accepted/NOT-fixed-point"
         if obs.get("dump"):
             dl = obs["dump"]
-            what += "/dump-stable" if dl["reparsed"] == obs["first"] and dl["text1"] is not None and dl["text1"] == dl["text2"] else "/dump-UNSTABLE"
+            same_cfg = json.dumps(dl["reparsed"]).replace(" ", "") == json.dumps(no_meta(obs["first"])).replace(" ", "")
+            what += "/dump-stable" if same_cfg and dl["text1"] is not None and dl["text1"] == dl["text2"] else "/dump-UNSTABLE"
     if case["kind"] == "ns":
         return "ns %d keys [%s] %s" % (len(case["decls"]), kinds, what)
     return "x %s [%s] %s" % (case["channel"], kinds, what)
@@ -1063,8 +1081,8 @@ META = {
                   "append, the as_dict() form of the re-parse (the model re-parses the flat key/value list), and the whole dump / "
                   "parse_string / dump clause of the property (observed for every such case: the configuration read back must equal "
                   "the configuration and the second dump must be byte-identical; no theorem about serialisation here, C01 proves "
-                  "serialize/adapt inversion for the plain grammar). Open findings on that leg: union-dump-wrong-member, "
-                  "set-dump-order (fix proposed). Not covered: environment, config files, subcommands, links. Trusted: Coq "
+                  "serialize/adapt inversion for the plain grammar). Open finding on that leg: union-dump-wrong-member "
+                  "(set-dump-order was fixed by 42b663b; its class stays in the judge, a recurrence is a VIOLATION). Not covered: environment, config files, subcommands, links. Trusted: Coq "
                   "kernel/VM; the hand-written models outside the generated cases; the observation harness; the real text "
                   "readers, whose answers are fed to the model per case. No axioms.",
     "technique": "Rocq proof by structural induction on the type grammar and on lists (fixed point of a faithful Gallina model of "
